@@ -174,6 +174,21 @@ PROPS = {
                      thorough=dict(chunks=16, maxlen=6, types=13, random=60))],
         rule="a run = one history of write_shape_and_record calls on a fresh Writer, every call with its own shape and row id",
     ),
+    "C20": dict(
+        level="model_checking",
+        level_text="TLC checks the grouping / flattening round-trip lemmas of GeoConv on every role sequence up to length 6; the "
+                   "harness converts random shapes of all 13 types (outer-first polygons, ring-only and strip/fan multipatches, the "
+                   "null shape) to geo-types and back, random geo-types geometries of every variant (incl. Rect, Triangle, "
+                   "GeometryCollection) to shapes and back, and probes every geo-traits accessor of Point / PointM / PointZ values "
+                   "and references for measures that are real, no-data, below the threshold and NaN; TLC validates every recorded "
+                   "conversion against GeoConv (coordinates, order, exterior+holes grouping up to ring orientation, refusals, "
+                   "dimension count vs readable coordinates)",
+        level_note="trusted: TLC, the id<->f64 tables (exact dyadic X/Y); geo-types geometries with non-empty components only",
+        technique=TECH_TRACE,
+        mc=[dict(module="MC_Geo", quick="MC_Geo.cfg", workers=4)],
+        stages=[dict(cmd="geo", spec="Trace_Geo", quick=dict(chunks=6, cases=600), thorough=dict(chunks=16, cases=4000))],
+        rule="a case = one conversion (shape -> geo -> shape, or geo -> shape -> geo) or one dimension probe",
+    ),
     "C09": dict(
         level="model_checking",
         level_text="TLC explores every history over {write a, write b, write x, finalize} up to the bound on the writer "
